@@ -118,6 +118,9 @@ def run(ctx: Ctx) -> Result:
         ('push1 x0102 true', bytes([C['PUSH1'], 2, 1, 2, C['TRUE']])),
         ('op_push1 d2 x0102', bytes([C['PUSH1'], 2, 1, 2])),
         ('div_int d-10 mod_int x0005', bytes([C['DIV_INT'], 1, 0xf6, C['MOD_INT'], 2, 0, 5])),
+        ('write_cache d0 d1 read_cache d0', bytes([C['WRITE_CACHE'], 1, 0, 1, C['READ_CACHE'], 1, 0])),
+        ('write_cache d255 d1', bytes([C['WRITE_CACHE'], 1, 255, 1])), ('write_cache d256 d2', bytes([C['WRITE_CACHE'], 2, 1, 0, 2])),
+        ('if { write_cache d0 d1 } else { true }', bytes([C['IF_ELSE'], 0, 4, C['WRITE_CACHE'], 1, 0, 1, 0, 1, C['TRUE']])),
         # textually identical comptime blocks mean what the macro table of THEIR source says (two sources compiled in one process)
         ('!= body [ ] { OP_TRUE } OP_PUSH ~ { !body [ ] } OP_EVAL', g.push_enc(bytes([C['TRUE']])) + bytes([C['EVAL']])),
         ('!= body [ ] { OP_FALSE OP_NOT } OP_PUSH ~ { !body [ ] } OP_EVAL', g.push_enc(bytes([C['FALSE'], C['NOT']])) + bytes([C['EVAL']])),
